@@ -34,5 +34,5 @@ Deliverables, for change n = 1, 2, in /tmp/{rnd}/{pid}/out/<n>/ :
                 `g++ -std=c++17 -O1 -DNDEBUG -I<tree>/include demo.cpp` (if it needs extra flags such as -mavx2 put them in a one-line file demo.flags),
                 exits 0 and prints PASS on the UNCHANGED tree and exits non-zero printing what is wrong on the changed tree. Check both yourself. The demo should compare against an independently computed expected result (hand-written numpy/PyTorch/Python semantics), not against the library itself;
   notes.md    - which file/function/line was changed and why it looks plausible; which sentence of the property it breaks; the concrete failing input, observed vs expected; what it needs in order to manifest; why the existing tests do not catch it; which tests you compiled and ran.
-Leave the worktree clean (git checkout -- .) when done, and remove your object files and executables from /tmp/{rnd}/{pid} except the out/ directory.
+Never use `git stash` (the stash is shared between all worktrees of the repository and other people work in sibling worktrees). Leave the worktree clean (git checkout -- .) when done, and remove your object files and executables from /tmp/{rnd}/{pid} except the out/ directory.
 Final answer: a short summary of the two changes (file, function, what it needs to manifest) and the test results.""")
